@@ -1,4 +1,4 @@
-CONSTANT SLen = 3
+CONSTANT SLen = 3 Wide = TRUE
 SPECIFICATION ISpec
 INVARIANTS ThRoundTrip ThPrefixes ThFraming ThWritable
 CHECK_DEADLOCK FALSE
